@@ -878,7 +878,7 @@ func checkDuplicateCase(c *core.Ctx) {
 				if cond == nil {
 					continue
 				}
-				for x := range core.BackSlice(cond) {
+				for x := range core.BackSliceLocal(cond) {
 					if f := core.FieldOf(x); f != nil && f.Name() == "Operator" {
 						hasOp = true
 					}
